@@ -126,3 +126,26 @@ Theorem C06_extracted_term_is_cheapest_for_all_histories : forall terms ops hs s
     (forall k', Knuth.derivable (f_cf cf) (agraph cf s) (N.to_nat (aid i')) k' -> (N.to_nat k <= k')%nat).
 Proof. exact extract_cheapest_static. Qed.
 Print Assumptions C06_extracted_term_is_cheapest_for_all_histories.
+
+(* third session, second round (Extract/ExtractMember*.v, eight files): MEMBERSHIP of the extracted term, for every history over
+   statically well-formed terms: the extracted term is represented in the queried class by an invocation equal to the query,
+   re-inserting it creates nothing and returns an invocation equal to the query, and every free slot of the term is an argument
+   slot of the query's canonical form or a slot drawn fresh during the extraction.  Two premises are NECESSARY (vm_compute
+   counterexamples in ExtractMemberCheck.v): the extraction starts from a fresh counter not below the one the extractor left
+   (a rolled-back counter re-draws a table node's binder name: capture), and the query's argument slots are older than the
+   extractor (a query mentioning a table node's binder name is captured).  "No brand-new free slot" is FALSE as a blanket
+   statement: a redundant slot of the chosen node appears as a fresh free slot of the term (extract_new_free_slot) - the
+   property's own wording allows exactly that ("or brand-new"). *)
+From SE Require Import EGraph.InvariantFacts EGraph.UnionFindFacts EGraph.Model9 Extract.ExtractMemberStatic.
+Theorem C06_extracted_term_is_represented_for_all_histories : forall terms ops hs s, List.Forall term_static terms ->
+  run_ops terms ops [] empty_egraph = Ok (hs, s) ->
+  forall cf last m s0, extractor_new last cf s = Ok (m, s0) ->
+  forall fuel i s1 t s1', ctr_only s s1 -> (Model.ctr s0 <= Model.ctr s1)%N -> covers s i ->
+  (forall x v, get (am i) x = Some v -> (v < Model.ctr s)%N) ->
+  extract fuel m i s1 = Ok (t, s1') ->
+  (exists x, lookup_rec s t = Ok (Some x) /\ eg_eq s x i = Ok true) /\
+  (forall a' s', add_expr t s = Ok (a', s') -> s' = s /\ eg_eq s' i a' = Ok true) /\
+  (exists i', find_applied_id s i = Ok i' /\
+     forall v, List.In v (rfree t) -> (exists y, get (am i') y = Some v) \/ (Model.ctr s1 <= v)%N).
+Proof. exact extract_member_static. Qed.
+Print Assumptions C06_extracted_term_is_represented_for_all_histories.
